@@ -75,7 +75,14 @@ DoOverlap(b) ==
   /\ ws' = ws
   /\ Step("Overlap", b, OverlapArr(ws, {b}))
 
-Next == \/ \E p \in Points, h \in Zooms, v \in Zooms : Lookup(p, h, v)
+\* query: notation round trips and expansion of one voxel of the working set
+DoNotation(s) ==
+  /\ "Notation" \in Ops
+  /\ ws' = ws
+  /\ Step("Notation", s, ExpandImpl(s))
+
+Next == \/ \E s \in ws : DoNotation(s)
+        \/ \E p \in Points, h \in Zooms, v \in Zooms : Lookup(p, h, v)
         \/ \E h \in Zooms, v \in Zooms : DoChangeZoom(h, v)
         \/ \E h \in Zooms, v \in Zooms : DoMerge(h, v)
         \/ \E o \in ShiftOffsets : DoShift(o)
@@ -168,6 +175,16 @@ C09_LookupNested == IsOp("Lookup") =>
       LatDecided(p, h2) =>
         /\ ChangeZoom(last.res, h2, v2) = {PointToVoxel(p, h2, v2, TRUE)}
         /\ OverlapArr(last.res, {PointToVoxel(p, h2, v2, TRUE)})
+
+\* C10
+C10_Expand == IsOp("Notation") =>
+   /\ last.res = {ExtToSp(t) : t \in ExpandDef(last.a)}
+   /\ Cardinality(last.res) = ExpandCount(last.a)
+   /\ \A t \in last.res : t[1] = MaxOf(last.a[1], last.a[4])
+   /\ RegionOf({SpToExt(t) : t \in last.res}) = Region(last.a)
+C10_RoundTrip == IsOp("Notation") =>
+   /\ (last.a[1] = last.a[4] => SpToExt(ExtToSp(last.a)) = last.a)
+   /\ \A t \in last.res : ExtToSp(SpToExt(t)) = t
 
 \* action properties over two consecutive steps
 C04_SecondMergeStutters ==
